@@ -73,6 +73,7 @@ pub struct Sched {
     pub keep_log: bool,
     pub log: String,
     pub log_hash: Fnv,
+    pub trace: Option<Vec<(u8, u64)>>,
     pub sched_hash: Fnv,
     pub ileave_hash: Fnv,
     pub switches: u64,
@@ -146,6 +147,7 @@ impl Sched {
             keep_log,
             log: String::new(),
             log_hash: Fnv::default(),
+            trace: None,
             sched_hash: Fnv::default(),
             ileave_hash: Fnv::default(),
             switches: 0,
@@ -161,6 +163,18 @@ impl Sched {
     pub fn logline(&mut self, line: &str) {
         self.log_hash.bytes(line.as_bytes());
         self.log_hash.bytes(b"\n");
+        if let Some(tr) = &mut self.trace {
+            let kind = if line.contains(" return ") {
+                b'r'
+            } else if line.contains(" sched ") {
+                b's'
+            } else if line.contains(" invoke ") {
+                b'i'
+            } else {
+                b'o'
+            };
+            tr.push((kind, self.log_hash.0));
+        }
         if self.keep_log {
             self.log.push_str(line);
             self.log.push('\n');
